@@ -127,6 +127,10 @@ type appInst struct {
 	pids  []gen.PID // pid of member i in the current run
 	kpids []gen.PID // children of the current run
 	gate  chan struct{}
+	// startrace.go: member i sends itself a message in Init that makes it terminate with reason selfdie[i]
+	// (-1: none); member selfbusy sends itself a message whose handler waits on gate
+	selfdie  []int
+	selfbusy int
 }
 
 func (a *appInst) Load(node gen.Node, args ...any) (gen.ApplicationSpec, error) {
@@ -208,6 +212,12 @@ func (m *member) Init(args ...any) error {
 	}
 	a.pids[m.idx] = m.PID()
 	a.mu.Unlock()
+	if a.selfdie != nil && a.selfdie[m.idx] >= 0 {
+		m.Send(m.PID(), dieMsg{how: a.selfdie[m.idx]})
+	}
+	if a.selfbusy == m.idx {
+		m.Send(m.PID(), busyMsg{gate: a.gate})
+	}
 	for k := 0; k < a.kids[m.idx]; k++ {
 		pid, err := m.Spawn(func() gen.ProcessBehavior { return &kid{app: a} }, gen.ProcessOptions{LinkParent: true})
 		if err != nil {
